@@ -16,7 +16,7 @@ TRUSTED_BASE = [
     "axioms allowed in property theorems: propext, Classical.choice, Quot.sound (audited by #print axioms on every run)",
     "tools/go2lean: translator of the leaf functions/constants/decision code (Generated/Leaf.lean is regenerated on every run)",
     "tools/gofacts: extractor of synchronisation skeletons and structural facts (Generated/Facts.lean)",
-    "tools/go2deep + Deep/Interp.lean: printer of the go/ast of the cache-layer method bodies (Generated/Deep.lean, regenerated on every run) and the definitional interpreter that gives the Go subset its meaning (closures capturing by reference, named results, evaluation order, type assertions); Proofs/DeepCache*.lean prove interpreter(generated syntax) = hand-written M2 for every state and call; go2deep -ctor prints the goroutine and the finalizer of the two constructors (Generated/DeepCtor.lean; meaning: Deep/Janitor.lean) and go2deep -wrappers what the writing methods of Map / MapOf pass to doCompute (Generated/Wrappers.lean; meaning: Deep/Wrapper.lean); go2deep -table prints the bodies of (*MapOf).Load and (*Map).Load (Generated/TableLoad.lean; meaning: Deep/TInterp.lean, the sequential reading of the lookup path over a heap of buckets with their meta words)",
+    "tools/go2deep + Deep/Interp.lean: printer of the go/ast of the cache-layer method bodies (Generated/Deep.lean, regenerated on every run) and the definitional interpreter that gives the Go subset its meaning (closures capturing by reference, named results, evaluation order, type assertions); Proofs/DeepCache*.lean prove interpreter(generated syntax) = hand-written M2 for every state and call; go2deep -ctor prints the goroutine and the finalizer of the two constructors (Generated/DeepCtor.lean; meaning: Deep/Janitor.lean) and go2deep -wrappers what the writing methods of Map / MapOf pass to doCompute (Generated/Wrappers.lean; meaning: Deep/Wrapper.lean); go2deep -table prints the bodies of (*MapOf).Load, (*Map).Load, sumSize of both tables and appendToBucketOf (Generated/TableLoad.lean; meaning: Deep/TInterp.lean, the sequential reading of the lookup path over a heap of buckets with their meta words)",
     "tools/rewrite + harness/vshim: build-time selector substitution (virtual clock, cooperative scheduler) through go build -overlay",
     "hand-written models (modelled, not verified): cache-layer method bodies, doCompute/Load/resize/Range/copyBucket/appendToBucket, constructor plumbing; validated only by the correspondence runs counted below",
     "Go compiler/runtime, sync/atomic sequential consistency, monotone clock, pure total user functions",
@@ -136,7 +136,7 @@ def regenerate(run):
             # the lookup path of MapOf (Load), printed for the deep embedding of the table layer
             rc4, out4, err4 = sh([os.path.join(BUILD, "go2deep"), "-table", REPO, os.path.join(LEAN, "CacheVerif", "Generated", "TableLoad.lean")])
             if run.pid in ("C03", "C04", "C08", "C10", "C11", "C16"):
-                run.oblige("go2deep -table: the bodies of (*MapOf).Load, (*Map).Load and sumSize of both tables are inside the Go subset of the table-layer deep embedding (locals, leaf functions and constants of internal/xsync, atomic loads, the three forms of for and for-range over the stripes, continue, a label with goto, named results)", rc4 == 0, err4.strip())
+                run.oblige("go2deep -table: the bodies of (*MapOf).Load, (*Map).Load, sumSize of both tables and appendToBucketOf are inside the Go subset of the table-layer deep embedding (locals, leaf functions and constants of internal/xsync, atomic loads, the three forms of for and for-range over the stripes, continue, a label with goto, named results, stores through a bucket pointer and new(bucketOfPadded))", rc4 == 0, err4.strip())
             if rc != 0:
                 # keep the Lean project buildable for the other obligations: the generated files stay as they were
                 pass
